@@ -186,7 +186,7 @@ impl Target {
                 if d2 != data {
                     return Err(format!("bytes differ: uploaded {} returned {}", hex(data), hex(&d2)));
                 }
-                Ok(())
+                self.ranged_reads(&format!("/v1/client/get-child-version/{parent}"), data)
             }
             other => Err(format!("GetChildVersion after upload answered {:?}", other)),
         }
@@ -227,10 +227,70 @@ impl Target {
                 if d2 != data {
                     return Err(format!("snapshot bytes differ: uploaded {} returned {}", hex(data), hex(&d2)));
                 }
-                Ok(())
+                self.ranged_reads("/v1/client/snapshot", data)
             }
             other => Err(format!("GetSnapshot after upload answered {:?}", other)),
         }
+    }
+}
+
+impl Target {
+    /// Reading in parts: the same resource asked for with `Range` headers (a client resuming a
+    /// download). A server may ignore the header (200, whole body) or honour it (206 with a
+    /// `Content-Range`); either way the bytes it returns must be the bytes that were uploaded,
+    /// at the positions it says they are from, and the parts must add up to the whole.
+    fn ranged_reads(&mut self, uri: &str, data: &[u8]) -> Result<(), String> {
+        if !self.sut.spec.is_http() || data.len() < 2 {
+            return Ok(());
+        }
+        let k = data.len() / 2 - 1;
+        let mut assembled: Vec<u8> = vec![];
+        let mut whole = false;
+        for (range, first, last) in [(format!("bytes=0-{k}"), 0usize, k), (format!("bytes={}-", k + 1), k + 1, data.len() - 1)] {
+            let hr = HttpReq {
+                method: "GET".into(),
+                uri: uri.to_string(),
+                headers: vec![("X-Client-Id".into(), self.client.to_string().into_bytes()), ("Range".into(), range.clone().into_bytes())],
+                body: Body::Empty,
+            };
+            let raw = self.sut.send_http(&hr).map_err(|e| format!("GET {uri} with Range: {range}: {e}"))?;
+            match raw.status {
+                200 => {
+                    if raw.body != data {
+                        return Err(format!("GET with Range: {range} answered 200 with other bytes: uploaded {} returned {}", hex(data), hex(&raw.body)));
+                    }
+                    whole = true;
+                }
+                206 => {
+                    let cr = raw.header_str("content-range").unwrap_or_default();
+                    let parsed = (|| -> Option<(usize, usize, usize)> {
+                        let rest = cr.trim().strip_prefix("bytes ")?;
+                        let (r, total) = rest.split_once('/')?;
+                        let (a, b) = r.split_once('-')?;
+                        Some((a.trim().parse().ok()?, b.trim().parse().ok()?, total.trim().parse().ok()?))
+                    })();
+                    let Some((a, b, total)) = parsed else {
+                        return Err(format!("GET with Range: {range} answered 206 with Content-Range {cr:?}"));
+                    };
+                    if total != data.len() || a > b || b >= data.len() {
+                        return Err(format!("GET with Range: {range} answered 206 Content-Range {cr:?} for a resource of {} bytes", data.len()));
+                    }
+                    if raw.body != data[a..=b] {
+                        return Err(format!("bytes differ: GET with Range: {range} answered 206 {cr:?} with {} where the upload has {} at those positions", hex(&raw.body), hex(&data[a..=b])));
+                    }
+                    if a != first || b != last {
+                        return Err(format!("GET with Range: {range} answered 206 for {cr:?}, another range than asked for"));
+                    }
+                    assembled.extend_from_slice(&raw.body);
+                }
+                st if (400..500).contains(&st) => return Ok(()), // refusing ranges altogether returns no bytes
+                st => return Err(format!("GET with Range: {range} answered {st}")),
+            }
+        }
+        if !whole && assembled != data {
+            return Err(format!("bytes differ: the two halves read with Range add up to {} but {} was uploaded", hex(&assembled), hex(data)));
+        }
+        Ok(())
     }
 }
 
